@@ -246,6 +246,11 @@ func body(sp *spec) func(c *vsched.Ctx) {
 			if got := h.f.Contains(ip4(p)); got != want {
 				vsched.Fail(fmt.Sprintf("C12: after all updates stopped Contains(%s)=%v, the set %v says %v", p, got, keys(final), want))
 			}
+			// a genuine IPv6 address that merely ends in the same four bytes is covered by no IPv4 range
+			v6 := append(net.IP{0x20, 0x01, 0x0d, 0xb8, 0, 0, 0, 0, 0, 0, 0, 0}, ip4(p)...)
+			if final["0.0.0.0/0"] == false && h.f.Contains(v6) {
+				vsched.Fail(fmt.Sprintf("C12: after all updates stopped Contains(%s)=true, an IPv6 address no IPv4 range covers (set %v)", v6, keys(final)))
+			}
 		}
 	}
 }
